@@ -461,7 +461,9 @@ func (ts *TableState) leafAt(x *Exec, k []*smt.Term, j int, n int) *smt.Term {
 	return r
 }
 
-func (ts *TableState) existsNow(x *Exec, k []*smt.Term) *smt.Term { return ts.existsAt(x, k, len(ts.Log)) }
+func (ts *TableState) existsNow(x *Exec, k []*smt.Term) *smt.Term {
+	return ts.existsAt(x, k, len(ts.Log))
+}
 
 func (ts *TableState) rowLeavesAt(x *Exec, k []*smt.Term, n int) []*smt.Term {
 	out := make([]*smt.Term, len(ts.Schema))
@@ -655,20 +657,20 @@ func (ts *TableState) uniqueViolation(x *Exec, pk []*smt.Term, leaves []*smt.Ter
 // ---- Env: all models of one path
 
 type Env struct {
-	x        *Exec
-	Protos   map[string]*TableMeta
-	Tables   map[string]*TableState
-	Order    []string
-	RowInv   map[string]FuncV
-	OnTouch  map[string][]FuncV
+	x         *Exec
+	Protos    map[string]*TableMeta
+	Tables    map[string]*TableState
+	Order     []string
+	RowInv    map[string]FuncV
+	OnTouch   map[string][]FuncV
 	touchBusy bool
-	invBusy  int
-	Bank     *BankState
-	Ctx      *CtxState
-	Events   []Value
-	saved    *effectsSnap
-	Calls    []RecordedCall
-	snapshot *envCheckpoint
+	invBusy   int
+	Bank      *BankState
+	Ctx       *CtxState
+	Events    []Value
+	saved     *effectsSnap
+	Calls     []RecordedCall
+	snapshot  *envCheckpoint
 }
 
 func newEnv(x *Exec) *Env {
